@@ -333,7 +333,11 @@ def run_reduce_implicit(integ):
       (out.ok(nm, 'exact', sample={'obligation': nm, 'poles': [float(p_) for p_ in poles]}) if ok else
        out.fail(nm, witness={'integrator': integ, 'order_tag': 'general'}, detail=f'R={sp.factor(R)}', key=nm))
     elif integ == 'imex_rk_sil3':
-      t = _tableau(integ)
+      try:
+        t = _tableau(integ)
+      except Exception as e:
+        out.undec(f'{integ}:derive', f'{type(e).__name__}: {e}')
+        return out
       s = t['stages']
       nm = f'{integ}:F=0-stiffly-accurate-DIRK (b_im = last row of A_im)'
       ok = all(abs(t['b_im'][j] - t['A_im'][s - 1, j]) <= tol for j in range(s))
